@@ -365,7 +365,7 @@ def tok_post(c, p):
     return and_(*conj)
 
 
-Q(name="e2_token_from_header", props=["C14"], func=r"token\.rs[^>]*>::from_header$",
+Q(name="e2_token_from_header", props=["C14", "C07"], func=r"token\.rs[^>]*>::from_header$",
   pure=[r"Token::decode", r"PartialEq>::eq", r"Add<Duration>>::add", r"TimeSource>::now", r"check_and_insert", r"raw_eq", r"compare_bytes"],
   functions=["IncomingToken::from_header"], pre=tok_pre, post=tok_post,
   bounds="every outcome of Token::decode (None / Retry / Validation payload with arbitrary content), of the address comparisons, of the clock and of the reuse log (all uninterpreted); lifetimes and instants are arbitrary (SystemTime + Duration opaque, comparison exact)",
@@ -3534,6 +3534,119 @@ Q(name="e2_handle_event_credits_own_path_only", props=["C07", "C15"], func=r"con
   pre=he_pre, post=hec_post,
   bounds="every datagram event, every effect of handling its first packet (handle_decode opaque - it may or may not have migrated the connection): afterwards the source address is compared with the address of the path the connection is on NOW, and total_recvd of that path is raised only if they are equal; up to the point where coalesced packets are handed on",
   replay=("conn_foreign_datagram_credit_native", lambda m: [dict(mode=k) for k in (0, 1, 2, 5, 4)]))
+
+
+# ------------------------------------------------------------------ C06: handshake data is buffered only within crypto_buffer_size of what TLS has consumed
+def rcl_post(c, p):
+    st = p.p.state
+    ins = [x for x in st.calls if re.search(r"Assembler::insert$", x[0])]
+    if not ins:
+        return "true"
+    br = [x for x in st.calls if re.search(r"Assembler::bytes_read$", x[0])]
+    if not br:
+        return "false"
+    off = c.inp("*_3.%d" % c.field("frame.rs", "Crypto", "offset"), BV64)
+    ln = c.inp("*_3.%d.1" % c.field("frame.rs", "Crypto", "data"), BV64)            # Bytes { ptr, len, data, vtable }
+    size = c.inp("**_1.%d.0.2.%d" % (c.field("connection/mod.rs", "Connection", "config"), c.field("config/transport.rs", "TransportConfig", "crypto_buffer_size")), BV64)
+    end = "(bvadd %s %s)" % (off, ln)
+    read = br[-1][2]
+    # everything the frame covers lies within `size` bytes of the read position (a frame wholly below it covers nothing new)
+    return or_("(bvule %s %s)" % (end, read), "(bvule (bvsub %s %s) %s)" % (end, read, size))
+
+
+Q(name="e2_read_crypto_buffer_limit", props=["C06", "C03"], func=r"connection/mod\.rs:\d+:1: \d+:16>::read_crypto$",
+  pure=[r"Assembler::bytes_read$", r"Bytes::len$", r"Deref>::deref$"], allowed_panics=r".", ignore_untranslatable=r".",
+  functions=["Connection::read_crypto (up to the insertion into the CRYPTO stream's assembler)"], pre=lambda c: ule(c.inp("_2#discr", I64), bv(2)), post=rcl_post,
+  bounds="every CRYPTO frame (any offset, any length), every state: the frame is handed to the assembler only if its END lies within crypto_buffer_size bytes of what the TLS stack has consumed - a frame that starts inside the window and extends beyond it is refused like one that lies wholly outside; arithmetic overflow of offset + length is a (checked) panic path outside the claim; the read loop after the insertion is outside",
+  replay=("conn_read_crypto_limit_native", lambda m: [dict(start_below=100, len=1200), dict(start_below=1, len=1), dict(start_below=0, len=0)]))
+
+
+# ------------------------------------------------------------------ C15 / C04: the highest packet number received never goes backwards (slice)
+def rxm_post(c, p):
+    st = p.p.state
+    if p.p.outcome != "stop":
+        return "true"
+    pk = [v for v in c.fn.debug.get("packet", []) if v != "_5"]
+    # the reborrow of `space` through which this part of the function reads the old value (the slice starts after it was taken)
+    m = re.search(r"\|in:\*(_\d+)\.%d\|" % c.field("connection/spaces.rs", "PacketSpace", "rx_packet"), " ".join(st.conds))
+    if not pk or not m or m.group(1) not in c.fn.debug.get("space", []):
+        return "false"
+    rx = "*%s.%d" % (m.group(1), c.field("connection/spaces.rs", "PacketSpace", "rx_packet"))
+    old, pn = c.inp(rx, BV64), c.inp(pk[0], BV64)
+    new = c.ex.read_key(st, rx, BV64).t
+    return eq(new, "(ite (bvuge %s %s) %s %s)" % (pn, old, pn, old))
+
+
+Q(name="e2_on_packet_authenticated_rx_packet_slice", props=["C15", "C04"], func=r"connection/mod\.rs:\d+:1: \d+:16>::on_packet_authenticated$",
+  src="connection/mod.rs", within=r"^    fn on_packet_authenticated\(", start_line=[r"^        if packet >= space\.rx_packet \{", r"(?#after)space\.pending_acks\.insert_one\(packet, now\);"],
+  end_line=r"self\.config\.qlog_sink\.emit_packet_received\(",
+  pure=[r"is_server", r"is_client"], check_stop=True, allowed_panics=r".",
+  functions=["Connection::on_packet_authenticated (slice: the update of the highest received packet number)"], pre=lambda c: "true", post=rxm_post,
+  bounds="from an ARBITRARY state of the packet space, every packet number: afterwards rx_packet is the larger of its old value and this packet's number - a reordered (older) packet never lowers it, so `number == rx_packet`, which the migration trigger reads as `this is the newest packet`, cannot be true for a late packet from an address the peer has left",
+  replay=("conn_migration_trigger_native", lambda m: [dict(mode=1), dict(mode=4)]))
+
+
+# ------------------------------------------------------------------ C06: memory held by a stream's reassembly buffer is bounded by the unread span, duplicates included (slice)
+def _asm(c, n):
+    return "*_1.%d" % c.field("connection/assembler.rs", "Assembler", n)
+
+
+def abm_pre(c):
+    # end >= bytes_read (representation invariant), sizes far from wrapping
+    lim = bv(1 << 32)
+    return and_(ule(c.inp(_asm(c, "bytes_read"), BV64), c.inp(_asm(c, "end"), BV64)), ult("(bvsub %s %s)" % (c.inp(_asm(c, "end"), BV64), c.inp(_asm(c, "bytes_read"), BV64)), lim),
+                ult(c.inp(_asm(c, "allocated"), BV64), lim), ult(c.inp(_asm(c, "buffered"), BV64), lim))
+
+
+def abm_post(c, p):
+    st = p.p.state
+    if p.p.outcome != "return":
+        return "true"
+    if p.called(r"Assembler::defragment$"):
+        return "true"
+    span = "(bvsub %s %s)" % (c.ex.read_key(st, _asm(c, "end"), BV64).t, c.ex.read_key(st, _asm(c, "bytes_read"), BV64).t)
+    bound = "(bvadd (bvadd %s (bvadd %s (bvlshr %s %s))) %s)" % (span, span, span, bv(1), bv(32768))      # span + floor(1.5 span) + 32 KiB
+    return "(bvule %s %s)" % (c.ex.read_key(st, _asm(c, "allocated"), BV64).t, bound)
+
+
+Q(name="e2_assembler_insert_bounded_memory_slice", props=["C06", "C03"], func=r"assembler\.rs[^>]*>::insert$",
+  src="connection/assembler.rs", within=r"^    pub\(super\) fn insert\(", start_line=[r"^        self\.data\.push\(buffer\);$", r"(?#after)^        self\.allocated \+= buffer\.allocation_size;$"],
+  allowed_panics=r".", ignore_untranslatable=r".", timeout=300,
+  functions=["Assembler::insert (slice: from the push of the new chunk to the end - the decision to defragment)"], pre=abm_pre, post=abm_post,
+  bounds="from an ARBITRARY assembler state (end >= bytes_read; unread span, buffered and allocated below 2^32 - 4 GiB per stream), after a chunk has been added: unless defragment runs, the memory accounted to the buffer is at most 32 KiB + 2.5 x the unread span (end - bytes_read) - so retransmitting the same in-window range over and over, which costs the peer no flow-control credit, cannot make the receiver hold more than a constant factor of the window; what defragment itself achieves is assembler_defragment_step's business",
+  replay=("assembler_duplicates_bounded_native", lambda m: [dict(rounds=3), dict(rounds=6)]))
+
+
+# ------------------------------------------------------------------ C07 / C15: an off-path PATH_RESPONSE is sized from the packet that carried the challenge (slice)
+def pcp_post(c, p):
+    st = p.p.state
+    if p.p.outcome != "stop":
+        return "true"
+    push = [x for x in st.calls if re.search(r"PathResponses::push$", x[0])]
+    if len(push) != 1:
+        return "false"
+    a = push[0][1]
+    got = a[4][1].t if (a[4][0] == "val" and isinstance(a[4][1], mir2smt_Val())) else None
+    if got is None:
+        return "false"
+    plen = c.inp(c.fn.debug.get("payload_len", ["_10"])[0], BV64)
+    hlen = c.inp("_5.%d.1" % c.field("packet.rs", "Packet", "header_data"), BV64)          # Bytes { ptr, len, data, vtable }
+    # what is recorded as "received from that address" is at most the size of this packet
+    return or_(not_(ult(hlen, V62)), "(bvule %s (bvadd %s %s))" % (got, hlen, plen))
+
+
+def mir2smt_Val():
+    import mir2smt
+    return mir2smt.Val
+
+
+Q(name="e2_path_challenge_records_packet_size_slice", props=["C07", "C15"], func=r"connection/mod\.rs:\d+:1: \d+:16>::process_payload$",
+  src="connection/mod.rs", within=r"^    fn process_payload\(", start_line=[r"^                Frame::PathChallenge\(token\) => \{$", r"(?#before)^                    self\.path_responses"],
+  end_line=[r"^                    if remote == self\.path\.remote \{$"],
+  pure=[r"Bytes::len$", r"BytesMut::len$"], check_stop=True, allowed_panics=r".", ignore_untranslatable=r".",
+  functions=["Connection::process_payload (slice: the PATH_CHALLENGE arm up to the recording of the response owed)"], pre=lambda c: ult(c.inp(c.fn.debug.get("payload_len", ["_10"])[0], BV64), V62), post=pcp_post,
+  bounds="from an ARBITRARY state: the response owed for a PATH_CHALLENGE is recorded together with a byte count that is at most the size of the packet that carried the challenge (header + payload) - poll_transmit pads an off-path response only if three times that count reaches 1200 bytes (e2_off_path_response_slice), so a small probe from an unvalidated third address is not answered with a full-size datagram",
+  replay=("conn_off_path_challenge_native", lambda m: [dict(n=1), dict(n=3)]))
 
 
 # ================================================================== the `quinn` crate (async layer): MIR dumped from its own workspace, candidates replayed by tests over loopback sockets
